@@ -209,6 +209,8 @@ def into_iter(m, cfg, f, args, t):
         return v
     if isinstance(v, Adt) and v.adt.endswith('ops::Range'):
         return v
+    if isinstance(v, Adt) and v.adt.split('::')[0] in ('minicbor', 'minicbor_serde', 'minicbor_io'):
+        return v   # the codec's own iterator types: IntoIterator for an Iterator is the identity
     ra = ' '.join((f.get('rargs') or []) + (f.get('args') or []) + [f.get('rpath') or '', f.get('impl_self') or ''])
     is_map = 'Map<' in ra or 'Map::' in ra or 'map::' in ra
     return Adt(ITER, 0, [Atom(coll_name(m, st, v)), Int.const(0), Int.const(1 if is_map else 0)])
@@ -339,7 +341,15 @@ def codec_leaf(m, cfg, f, args, t):
 
 
 def decode_leaf_custom(m, cfg, f, args, t, name):
-    return NotImplemented
+    st = cfg.st
+    e = peek_item(st)
+    if e is None:
+        return eoi(m)
+    if e[0] == 'ITEM' and e[1] == 'ENC' and str(e[2]).startswith('custom:'):
+        st.events.append(('DECODED', 'custom:' + name, e[2], e[3]))
+        advance(st)
+        return ok(Atom(e[3]))
+    return mismatch(m, st, 'custom decode', e)
 
 
 class L2Machine(Machine):
@@ -508,3 +518,383 @@ def items_len(m, st, events):
         else:
             notes.append(('unknown-item', it))
     return total, notes
+
+
+# ---------------------------------------------------------------------------
+# decoder side: accessors consume an abstract item stream (tuple of events: ITEM / REP_BEGIN / REP_END)
+
+TYPE_ADT = 'minicbor::data::Type'
+DERR = 'minicbor::decode::error::Error'
+DERRI = 'minicbor::decode::error::ErrorImpl'
+
+
+def _type_variant(prog, name):
+    ad = prog.adts.get(TYPE_ADT)
+    for i, v in enumerate(ad['variants']):
+        if v['name'] == name:
+            return Adt(TYPE_ADT, i, [] if name != 'Unknown' else [Int.const(0)])
+    raise Abort('Type::%s unknown' % name)
+
+
+def _derr(prog, name, payload=()):
+    ad = prog.adts.get(DERRI)
+    for i, v in enumerate(ad['variants']):
+        if v['name'] == name:
+            return Adt(DERR, 0, [Adt(DERRI, i, list(payload)), NONE, Atom('msg')])
+    raise Abort('ErrorImpl::%s unknown' % name)
+
+
+def stream(st):
+    return st.extra.get('stream') or ()
+
+
+def cur(st):
+    return st.extra.get('cur', 0)
+
+
+def peek_item(st):
+    s, i = stream(st), cur(st)
+    while i < len(s) and s[i][0] in ():
+        i += 1
+    return s[i] if i < len(s) else None
+
+
+def advance(st, n=1):
+    st.extra['cur'] = cur(st) + n
+
+
+def int_type_name(v, kind):
+    """minicbor Type a datatype() call reports for an INT item"""
+    if isinstance(v, Int) and v.is_const():
+        c = v.c
+        if c >= 0:
+            return 'U8' if c <= 0xff else 'U16' if c <= 0xffff else 'U32' if c <= 0xffffffff else 'U64'
+        m = -1 - c
+        return 'I8' if m <= 0x7f else 'I16' if m <= 0x7fff else 'I32' if m <= 0x7fffffff else 'I64' if m <= (1 << 63) - 1 else 'Int'
+    return {'u8': 'U8', 'u16': 'U16', 'u32': 'U32', 'u64': 'U64', 'i8': 'I8', 'i16': 'I16', 'i32': 'I32', 'i64': 'I64', 'int': 'Int'}.get(kind, 'U8')
+
+
+ITEM_TYPE = {'NULL': 'Null', 'UNDEF': 'Undefined', 'BOOL': 'Bool', 'SIMPLE': 'Simple', 'F16': 'F16', 'F32': 'F32', 'F64': 'F64',
+             'CHAR': 'U32', 'TAG': 'Tag', 'BYTES': 'Bytes', 'STR': 'String', 'ARRAY': 'Array', 'MAP': 'Map', 'BREAK': 'Break'}
+BEGIN_TYPE = {'array': 'ArrayIndef', 'map': 'MapIndef', 'bytes': 'BytesIndef', 'str': 'StringIndef'}
+
+
+def eoi(m):
+    return err(_derr(m.prog, 'EndOfInput'))
+
+
+def mismatch(m, st, what, it):
+    st.events.append(('MISMATCH', what, it))
+    return err(_derr(m.prog, 'TypeMismatch', [Atom('type')]))
+
+
+def d_datatype(m, cfg, f, args, t):
+    st = cfg.st
+    e = peek_item(st)
+    if e is None:
+        return eoi(m)
+    if e[0] != 'ITEM':
+        return ok(Atom('Type:elements', {'s': TYPE_ADT, 'k': 'leaftype'}))
+    it = e[1:]
+    k = it[0]
+    if k == 'INT':
+        return ok(_type_variant(m.prog, int_type_name(it[2], it[1])))
+    if k == 'BEGIN':
+        return ok(_type_variant(m.prog, BEGIN_TYPE[it[1]]))
+    if k == 'ENC':
+        # an opaque leaf: by the property's exclusion (no Option directly in an Option) it is not null, and it is not a break
+        return ok(Atom('Type:leaf(%s)' % it[2], {'s': TYPE_ADT, 'k': 'leaftype'}))
+    return ok(_type_variant(m.prog, ITEM_TYPE[k]))
+
+
+def type_eq(m, cfg, f, args, t):
+    st = cfg.st
+    a = deref(m, st, args[0])
+    b = deref(m, st, args[1])
+    ne = (f.get('rpath') or f['path']).endswith('::ne')
+    res = None
+    if isinstance(a, Atom) or isinstance(b, Atom):
+        other = b if isinstance(a, Atom) else a
+        if isinstance(other, Adt):
+            nm = m.prog.adts[TYPE_ADT]['variants'][other.variant]['name']
+            if nm in ('Null', 'Break', 'Undefined'):
+                res = 0
+    elif isinstance(a, Adt) and isinstance(b, Adt):
+        res = 1 if a.variant == b.variant else 0
+    if res is None:
+        return NotImplemented
+    return Int.const((1 - res) if ne else res)
+
+
+def _d_container(kind):
+    def h(m, cfg, f, args, t):
+        st = cfg.st
+        e = peek_item(st)
+        if e is None:
+            return eoi(m)
+        if e[0] == 'ITEM' and e[1] == kind:
+            advance(st)
+            return ok(some(e[2]))
+        if e[0] == 'ITEM' and e[1] == 'BEGIN' and e[2] == kind.lower():
+            advance(st)
+            return ok(NONE)
+        return mismatch(m, st, kind.lower(), e)
+    return h
+
+
+def _d_int(acc):
+    def h(m, cfg, f, args, t):
+        st = cfg.st
+        e = peek_item(st)
+        if e is None:
+            return eoi(m)
+        if e[0] == 'ITEM' and e[1] in ('INT', 'CHAR'):
+            v = e[3] if e[1] == 'INT' else e[2]
+            kind = e[2] if e[1] == 'INT' else 'u32'
+            if acc == 'int':
+                advance(st)
+                if isinstance(v, Adt):
+                    return ok(v)
+                return ok(Atom('Int(%r)' % (v,)))
+            if isinstance(v, Adt):   # data::Int value read through a primitive accessor
+                st.flags.add('imprecise:int-narrow')
+                advance(st)
+                return Fork([(None, ok(Atom('narrow(%r)' % (v,)))), (None, err(_derr(m.prog, 'Overflow', [Atom('n')])))])
+            tr = ty_range(acc)
+            if isinstance(v, Int):
+                lo, hi = (v.c, v.c) if v.is_const() else m.rng(st, v)
+                if tr[0][0] <= lo and hi <= tr[-1][1]:
+                    advance(st)
+                    return ok(v)
+                if hi < tr[0][0] or lo > tr[-1][1]:
+                    st.events.append(('MISMATCH', 'int range %s' % acc, e))
+                    return err(_derr(m.prog, 'Overflow' if (lo >= 0) == (tr[0][0] >= 0) or True else 'TypeMismatch', [Atom('n')]))
+                # partially representable: both outcomes (the value is universally quantified)
+                st.events.append(('NARROWING', acc, kind))
+                a2 = cfg.st
+
+                def okm(s_):
+                    advance(s_)
+                return Fork([(okm, ok(v)), (None, err(_derr(m.prog, 'Overflow', [Atom('n')])))])
+            kr = ty_range(kind) if kind != 'int' else None
+            advance(st)
+            if kr and tr[0][0] <= kr[0][0] and kr[-1][1] <= tr[-1][1]:
+                return ok(v)
+            st.events.append(('NARROWING', acc, kind))
+            return Fork([(None, ok(v)), (None, err(_derr(m.prog, 'Overflow', [Atom('n')])))])
+        return mismatch(m, st, acc, e)
+    return h
+
+
+def _d_simple_kind(kind, conv=None):
+    def h(m, cfg, f, args, t):
+        st = cfg.st
+        e = peek_item(st)
+        if e is None:
+            return eoi(m)
+        if e[0] == 'ITEM' and e[1] == kind:
+            advance(st)
+            if kind in ('NULL', 'UNDEF'):
+                return ok(UNIT)
+            return ok(e[2])
+        return mismatch(m, st, kind.lower(), e)
+    return h
+
+
+def d_float(accept):
+    def h(m, cfg, f, args, t):
+        st = cfg.st
+        e = peek_item(st)
+        if e is None:
+            return eoi(m)
+        if e[0] == 'ITEM' and e[1] in accept:
+            advance(st)
+            return ok(e[2])
+        return mismatch(m, st, 'float', e)
+    return h
+
+
+def d_char(m, cfg, f, args, t):
+    st = cfg.st
+    e = peek_item(st)
+    if e is None:
+        return eoi(m)
+    if e[0] == 'ITEM' and e[1] == 'CHAR':
+        advance(st)
+        return ok(e[2])
+    if e[0] == 'ITEM' and e[1] == 'INT':
+        advance(st)
+        st.events.append(('NARROWING', 'char', e[2]))
+        return Fork([(None, ok(e[3])), (None, err(_derr(m.prog, 'InvalidChar', [Atom('n')])))])
+    return mismatch(m, st, 'char', e)
+
+
+def d_tag(m, cfg, f, args, t):
+    st = cfg.st
+    e = peek_item(st)
+    if e is None:
+        return eoi(m)
+    if e[0] == 'ITEM' and e[1] == 'TAG':
+        advance(st)
+        return ok(Adt('minicbor::data::Tag', 0, [e[2]]))
+    return mismatch(m, st, 'tag', e)
+
+
+def _d_slice(kind):
+    def h(m, cfg, f, args, t):
+        st = cfg.st
+        e = peek_item(st)
+        if e is None:
+            return eoi(m)
+        if e[0] == 'ITEM' and e[1] == kind:
+            advance(st)
+            return ok(Slice(None, 'input:' + str(e[2]), e[3]))
+        return mismatch(m, st, kind.lower(), e)
+    return h
+
+
+def skip_tree(events, i):
+    """index after one complete item tree starting at i (None if malformed / exhausted)"""
+    from .rules.derive_rules import parse_tree
+    j, _ = parse_tree(list(events), i)
+    return j
+
+
+def d_skip(m, cfg, f, args, t):
+    st = cfg.st
+    s, i = stream(st), cur(st)
+    if i >= len(s):
+        return eoi(m)
+    if s[i][0] == 'ITEM' and s[i][1] == 'BREAK':
+        # skip() on a break byte consumes it (used by the derive code to close indefinite containers)
+        advance(st)
+        return ok(UNIT)
+    j = skip_tree(s, i)
+    if j is None:
+        st.events.append(('MISMATCH', 'skip', s[i]))
+        return eoi(m)
+    st.events.append(('SKIPPED', tuple(s[i:j])))
+    st.extra['cur'] = j
+    return ok(UNIT)
+
+
+def d_current(m, cfg, f, args, t):
+    st = cfg.st
+    e = peek_item(st)
+    if e is None:
+        return eoi(m)
+    if e[0] == 'ITEM' and e[1] == 'BREAK':
+        return ok(Int.const(0xff))
+    return ok(Int.const(0))
+
+
+def d_read(m, cfg, f, args, t):
+    st = cfg.st
+    e = peek_item(st)
+    if e is None:
+        return eoi(m)
+    if e[0] == 'ITEM' and e[1] == 'BREAK':
+        advance(st)
+        return ok(Int.const(0xff))
+    raise Abort('raw read() at item level on %r' % (e,))
+
+
+def dec_leaf(m, cfg, f, args, t):
+    if f.get('resolved') and not m.is_leaf_callee(f):
+        return NotImplemented
+    st = cfg.st
+    ty = f.get('self_ty') or (f.get('rargs') or ['?'])[0]
+    if f.get('resolved'):
+        ty = f.get('impl_self', ty)
+    e = peek_item(st)
+    if e is None:
+        return eoi(m)
+    if e[0] == 'ITEM' and e[1] == 'ENC':
+        st.events.append(('DECODED', ty, e[2], e[3]))
+        advance(st)
+        return ok(Atom(e[3], ty_from_str(ty)))
+    return mismatch(m, st, 'decode<%s>' % ty, e)
+
+
+def nil_leaf(m, cfg, f, args, t):
+    if f.get('resolved') and not m.is_leaf_callee(f):
+        return NotImplemented
+    ty = f.get('self_ty') or (f.get('rargs') or ['?'])[0]
+    return Atom('nil<%s>' % ty, ty_from_str('std::option::Option<%s>' % ty))
+
+
+def iter_next_override(m, cfg, f, args, t):
+    """ArrayIter/MapIter::next with a symbolic element count: one representative element"""
+    st = cfg.st
+    r = args[0]
+    if not isinstance(r, Ref):
+        return NotImplemented
+    it = m.read_path(st, r.key, r.path)
+    if not isinstance(it, Adt):
+        return NotImplemented
+    ad = m.prog.adts.get(it.adt)
+    if ad is None or 'len' not in ad['variants'][0]['fields']:
+        return NotImplemented
+    names = ad['variants'][0]['fields']
+    li = names.index('len')
+    ln = it.fields[li]
+    e = peek_item(st)
+    if isinstance(ln, Adt) and ln.variant == 1:
+        n = ln.fields[0]
+        if isinstance(n, Int) and not n.is_const():
+            if e is not None and e[0] == 'REP_BEGIN':
+                advance(st)
+                fs = list(it.fields)
+                fs[li] = some(Int.const(1))
+                m.write_path(st, r.key, r.path, Adt(it.adt, it.variant, fs))
+            else:
+                st.events.append(('MISMATCH', 'element loop', e))
+                return some(err(_derr(m.prog, 'EndOfInput')))
+        elif isinstance(n, Int) and n.is_const() and n.c == 0:
+            if e is not None and e[0] == 'REP_END':
+                advance(st)
+    return NotImplemented
+
+
+def decoder_overrides():
+    o = {}
+    for k in INT_METHODS + ['int']:
+        o[DEC + k] = _d_int(k)
+    o[DEC + 'array'] = _d_container('ARRAY')
+    o[DEC + 'map'] = _d_container('MAP')
+    o[DEC + 'bool'] = _d_simple_kind('BOOL')
+    o[DEC + 'null'] = _d_simple_kind('NULL')
+    o[DEC + 'undefined'] = _d_simple_kind('UNDEF')
+    o[DEC + 'simple'] = _d_simple_kind('SIMPLE')
+    o[DEC + 'char'] = d_char
+    o[DEC + 'f16'] = d_float(('F16',))
+    o[DEC + 'f32'] = d_float(('F16', 'F32'))
+    o[DEC + 'f64'] = d_float(('F16', 'F32', 'F64'))
+    o[DEC + 'tag'] = d_tag
+    o[DEC + 'bytes'] = _d_slice('BYTES')
+    o[DEC + 'str'] = _d_slice('STR')
+    o[DEC + 'skip'] = d_skip
+    o[DEC + 'datatype'] = d_datatype
+    o[DEC + 'current'] = d_current
+    o[DEC + 'read'] = d_read
+    o[DEC + 'position'] = lambda m, cfg, f, args, t: Atom('pos@%d' % cur(cfg.st), {'s': 'usize', 'k': 'int:usize'})
+    o['<minicbor::data::Type as std::cmp::PartialEq>::eq'] = type_eq
+    o['<minicbor::data::Type as std::cmp::PartialEq>::ne'] = type_eq
+    o['minicbor::decode::Decode::decode'] = dec_leaf
+    o['minicbor::decode::Decode::nil'] = nil_leaf
+    o['minicbor::bytes::DecodeBytes::decode_bytes'] = dec_leaf
+    o['minicbor::bytes::DecodeBytes::nil'] = nil_leaf
+    for nm in ("ArrayIter<'a, 'b, T>", "ArrayIterWithCtx<'a, 'b, C, T>", "MapIter<'a, 'b, K, V>", "MapIterWithCtx<'a, 'b, C, K, V>"):
+        o['<minicbor::decode::decoder::%s as std::iter::Iterator>::next' % nm] = iter_next_override
+    return o
+
+
+def run_decode(prog, path_or_inst, events, leaf_crates=(), from_state=None, **kw):
+    """decode root over the abstract item stream given by `events` (ITEM / REP markers)"""
+    st = State()
+    if from_state is not None:
+        st.ranges = dict(from_state.ranges)
+        st.symty = dict(from_state.symty)
+    st.extra['stream'] = tuple(e for e in events if e[0] in ('ITEM', 'REP_BEGIN', 'REP_END'))
+    st.extra['cur'] = 0
+    return run_root(prog, path_or_inst, decoder_overrides(), leaf_crates, st=st, **kw)
